@@ -1382,7 +1382,8 @@ function translate_select_expression(select_expression) {
 
 function separate_string_literals(rbql_expression) {
     // The regex consists of 3 almost identicall parts, the only difference is quote type
-    var rgx = /('(\\(\\\\)*'|[^'])*')|("(\\(\\\\)*"|[^"])*")|(`(\\(\\\\)*`|[^`])*`)/g;
+    // A backslash always escapes the next character: this way an escaped backslash right before the closing quote e.g. 'C:\\' doesn't hide it
+    var rgx = /('(\\.|[^'\\])*')|("(\\.|[^"\\])*")|(`(\\.|[^`\\])*`)/g;
     var match_obj = null;
     var format_parts = [];
     var string_literals = [];
